@@ -153,8 +153,28 @@ def replay(prop, path):
                 return 1
             return 0
         evs, rc, err = run_apidrv(dict(calls=obj["calls"], server_mode=obj.get("server_mode", "bare")), wd, "replay")
+        if rc != 0:
+            print(err[-400:])
+            return 2
+        inv = {v: k for k, v in DIAL.items()}
+        lines = []
         for e in evs:
             print(json.dumps(e)[:400])
-        return 0 if rc == 0 else 2
+            if e["ev"] == "ApiCall" and e["id"] != "setup":
+                lines.append(dict(ev="ApiCall", id=e["id"], cred=inv[e["cred"]], method=e["method"], target=e["target"], outcome=e["outcome"], data=bool(e["data"]), detail=e["detail"][:80]))
+        rundir = os.path.join(wd, "ApiTrace")
+        os.makedirs(rundir, exist_ok=True)
+        with open(os.path.join(rundir, "trace.ndjson"), "w") as fh:
+            for ln in lines:
+                fh.write(json.dumps(ln) + "\n")
+        invs = ["NoServiceWithoutCA", "IdentityIsCN"]
+        tr = tlc("ApiTrace", make_cfg(dict(TraceFile="trace.ndjson"), invariants=invs, constraint="HighWater", postcondition="Accepted"), wd, name="ApiTrace", workers=1, timeout=600, dump_trace=False)
+        if tr.ok:
+            print("replay: calls accepted by ApiTrace (%s hold)" % ", ".join(invs))
+            return 0
+        if tr.violated in invs:
+            print("VIOLATION property=%s replay=%s" % (prop, path))
+            return 1
+        return 2
     finally:
         cleanup(wd)
